@@ -34,11 +34,16 @@ def cart_regions():
         # used by the structured large catalogs only: 6x5 lattice with a hole at (2,2) and one flagged-out cell
         'cart6x5': dict(cells=[g(c, r) for r in range(5) for c in range(6) if (c, r) != (2, 2)],
                         flags=[0 if i == 7 else 1 for i in range(29)]),
+        # two blocks separated by an entirely missing column (column 2)
+        'cart5x2gap': dict(cells=[g(c, r) for r in range(2) for c in (0, 1, 3, 4)], flags=None),
     }
 
 
 QUAD = {'quadL1': ['0', '1', '2', '3'], 'quadL2': [a + b for a in '0123' for b in '0123'],
         'quadmixed': ['0', '10', '11', '12', '13', '2', '3']}
+SMALL_QUAD = list(QUAD)
+_Q = lambda z: [''.join(t) for t in itertools.product('0123', repeat=z)]
+QUAD.update({'quadL3': _Q(3), 'quadL5': _Q(5)})      # 64 and 1024 cells: structured large catalogs only
 MAG_GRIDS = {'m567': [5.0, 6.0, 7.0], 'm495': [4.95, 5.05, 5.15, 5.25, 5.35], 'm5': [5.0]}
 
 
@@ -65,6 +70,8 @@ def positions_for(rname):
             pos.append((0.15, 0.05))                 # hole
         elif rname == 'cart2x2flag':
             pos.append((0.05, 0.15))                 # flagged-out cell
+        elif rname == 'cart5x2gap':
+            pos.append((0.25, 0.05))                 # the missing column
         else:
             pos.append((c0[0] + DH / 4, c0[1] + DH / 4))
         xs = [c[0] for c in cells]
@@ -87,10 +94,18 @@ def cases(tier, seed):
         for n in (10, 100, 1000) + ((2000,) if tier == 'thorough' else ()):
             for bad in ('none', 'first', 'middle', 'last', 'below-mag-middle'):
                 yield dict(kind='large', region=rname, n=n, bad=bad)
-    for rname in [r for r in cart_regions() if r != 'cart6x5'] + list(QUAD):
+    # many events x many cells (events x cells up to 2e6)
+    for rname, ns in (('quadL5', (100, 1000) + ((2000,) if tier == 'thorough' else ())), ('quadL3', (2000,) + ((5000,) if tier == 'thorough' else ())),
+                      ('cart5x2gap', (10, 100))):
+        for n in ns:
+            for bad in ('none', 'first', 'last'):
+                yield dict(kind='large', region=rname, n=n, bad=bad)
+    for rname in [r for r in cart_regions() if r != 'cart6x5'] + SMALL_QUAD:
         for grid in MAG_GRIDS:
             for bound in (True, False):
                 for size in range(0, mx + 1):
+                    if rname == 'cart5x2gap' and size > 2:
+                        continue
                     if tier == 'quick' and size == 3 and (grid, bound) != ('m567', True):
                         continue
                     nparts = {0: 1, 1: 1, 2: 2, 3: 12, 4: 64}[size]
@@ -98,7 +113,7 @@ def cases(tier, seed):
                         yield dict(kind='block', region=rname, grid=grid, bound=bound, size=size, zone=(tier == 'thorough' or size <= 2),
                                    perms=('all' if tier == 'thorough' and size <= 3 else 'three'), part=[part, nparts])
     if tier == 'quick':
-        rname = ([r for r in cart_regions() if r != 'cart6x5'] + list(QUAD))[seed % 7]
+        rname = ([r for r in cart_regions() if r != 'cart6x5'] + SMALL_QUAD)[seed % 8]
         for part in range(16):
             yield dict(kind='block', region=rname, grid='m567', bound=True, size=4, perms='sorted', part=[part, 16])
 
@@ -364,10 +379,11 @@ def run_large(case, failures, hsh):
     rname, n, bad = case['region'], case['n'], case['bad']
     edges = [4.95, 5.05, 5.15, 5.25, 5.35]
     if rname.startswith('cart'):
-        reg0 = cart_regions()[rname]
+        reg0 = dict(cart_regions()[rname])
+        reg0['flags'] = reg0['flags'] or [1] * len(reg0['cells'])
         centres = [(x + DH / 2, y + DH / 2) for i, (x, y) in enumerate(reg0['cells']) if reg0['flags'][i] == 1]
         corners = [(x, y) for i, (x, y) in enumerate(reg0['cells']) if reg0['flags'][i] == 1][::3]
-        outside = (0.25, 0.25)         # the hole
+        outside = (0.25, 0.25) if rname == 'cart6x5' else (0.25, 0.05)        # the hole / the missing column
     else:
         bs = [rq.bounds(k) for k in QUAD[rname]]
         centres = [((b[0] + b[2]) / 2, (b[1] + b[3]) / 2) for b in bs]
